@@ -1115,6 +1115,14 @@ class KEval:
                 if isinstance(a, Poly):
                     return Poly.fn("len", a)
                 return TOP
+            if fn.id == "slice" and "slice" not in env and 1 <= len(args) <= 3 and not kw:
+                # a slice object built by the builtin is the slice a[lo:hi:step] writes (same canonical form, open lower end of a unit-step slice = 0)
+                sc = [Poly.sym("None") if (isinstance(a, Const) and a.v is None) else self.scalar(a) for a in args]
+                if all(isinstance(x, Poly) for x in sc):
+                    lo_, hi_, st_ = (Poly.sym("None"), sc[0], Poly.sym("None")) if len(sc) == 1 else (sc[0], sc[1], sc[2] if len(sc) == 3 else Poly.sym("None"))
+                    if st_ == Poly.sym("None") and lo_ == Poly.sym("None"):
+                        lo_ = ZERO
+                    return Poly.fn("slice", lo_, hi_, st_)
             if fn.id in ("abs", "min", "max", "round", "sum", "bool", "pow"):
                 sc = [self.scalar(a) for a in args]
                 if all(isinstance(x, Poly) for x in sc):
